@@ -295,6 +295,38 @@ fn gen_value(rng: &mut Rng, kind: &str) -> Sexp {
     }
 }
 
+/// the state of freshly constructed objects — the one `setup()` evaluates every binding in
+pub fn init_state() -> Sexp {
+    let dflt = |kind: &str| -> Sexp {
+        match kind {
+            "int" => node("int", vec![num(0)]),
+            "uint" => node("uint", vec![num(0)]),
+            "double" => node("double", vec![num(0)]),
+            "bool" => node("bool", vec![crate::sexp::boolean(false)]),
+            "str" => node("str", vec![st("")]),
+            "enum3" | "enum2" | "flags" => node("enum", vec![num(0)]),
+            "pbase" | "pother" | "pderived" => node("ptr", vec![atom("null")]),
+            "strlist" | "intlist" => node("list", vec![]),
+            "variant" => node("variant", vec![atom("invalid")]),
+            _ => panic!("kind {kind}"),
+        }
+    };
+    let mut objs = vec![];
+    for (id, cls) in ir::OBJECTS {
+        let mut v = vec![st(*id)];
+        let props: Vec<(&str, &str)> = match *cls {
+            "VOther" => VOTHER_PROPS.to_vec(),
+            "VDerived" => VBASE_PROPS.iter().cloned().chain([("extra", "int")]).collect(),
+            _ => VBASE_PROPS.to_vec(),
+        };
+        for (p, k) in props {
+            v.push(list(vec![atom(p), dflt(k)]));
+        }
+        objs.push(node("obj", v));
+    }
+    node("init", vec![node("state", objs)])
+}
+
 pub fn gen_state(rng: &mut Rng) -> Sexp {
     let mut objs = vec![];
     for (id, cls) in ir::OBJECTS {
@@ -439,7 +471,21 @@ fn small_const(rng: &mut Rng) -> Expr {
 pub fn targeted(rng: &mut Rng) -> (&'static str, Program, &'static str) {
     let block = |ss: Vec<Stmt>| Program::Stmt(Stmt::Block(ss));
     let expr = |e: Expr| Program::Stmt(Stmt::Expr(e));
-    match rng.below(14) {
+    match rng.below(16) {
+        14 => {
+            // a `let` directly in an `if` branch: the branch is a scope of its own (regression: F32, repaired by a011e08)
+            let p = block(vec![
+                let_("x", int(1)),
+                Stmt::If(mem(id("a"), "b"), Box::new(let_("x", int(2))), Some(Box::new(let_("x", int(3))))),
+                Stmt::Expr(bin("add", id("x"), dyn_int(rng))),
+            ]);
+            ("i", p, "let-in-if-branch")
+        }
+        15 => {
+            // a local that is never assigned: undefined in every state (the C++ reads an uninitialised variable)
+            let p = block(vec![Stmt::Lexical(false, vec![Decl { name: "v".into(), ty: Some(vec!["VBase".into()]), value: None }]), ret(mem(id("v"), "next"))]);
+            ("next", p, "uninitialised-local")
+        }
         0 => {
             // % / and shifts with negative and boundary operands
             let op = *rng.pick(&["rem", "div", "shl", "shr"]);
@@ -657,6 +703,15 @@ pub fn f41_candidate(p: &Program) -> bool {
     })
 }
 
+/// the same family in method-call position: `a.bump(2147483648)` is emitted with a `long` literal, the overloads
+/// `bump(int)` / `bump(double)` become ambiguous
+pub fn f41_method_candidate(p: &Program) -> bool {
+    any_expr(p, &|e| match e {
+        Expr::Call(f, args) => matches!(&**f, Expr::Member(_, m) if m == "bump") && args.iter().any(big_constant),
+        _ => false,
+    })
+}
+
 // ------------------------------------------------------------------------------------------------ the stream
 
 struct Built {
@@ -783,17 +838,19 @@ impl C01 {
             }
             writeln!(tu, "    UiSupport::{n} *sup = new UiSupport::{n}(root, ui);").unwrap();
             writeln!(tu, "    const char *st = rt::guard([&]() {{ sup->setup(); }});").unwrap();
-            writeln!(tu, "    std::printf(\"{n} (setup %s)\", st ? st : \"ok\");").unwrap();
+            writeln!(tu, "    std::printf(\"{n} (setup %s)\", st ? st : \"ok\"); std::fflush(stdout);").unwrap();
             writeln!(tu, "    for (int k = 0; k < {}; ++k) {{", states.len()).unwrap();
             writeln!(tu, "        set_state(k, ui->a, ui->b, ui->o, ui->dv);").unwrap();
             writeln!(tu, "        std::string v;").unwrap();
             writeln!(tu, "        const char *f = rt::guard([&]() {{ v = rt::show(sup->{}()); }});", b.eval_fn).unwrap();
             writeln!(tu, "        if (f) std::printf(\" (fail %s)\", f); else std::printf(\" %s\", v.c_str());").unwrap();
+            writeln!(tu, "        std::fflush(stdout);").unwrap();
             writeln!(tu, "    }}\n    std::printf(\"\\n\"); std::fflush(stdout);\n}}").unwrap();
         }
         tu.push_str("int main()\n{\n    rt::install();\n");
         for b in built {
-            writeln!(tu, "    run_{}();", b.name).unwrap();
+            // a program whose undefined behaviour kills the process must not take the batch down
+            writeln!(tu, "    rt::in_child([]() {{ run_{}(); }});", b.name).unwrap();
         }
         tu.push_str("    std::printf(\"(done)\\n\");\n    return 0;\n}\n");
         std::fs::write(dir.join("tu.cpp"), tu).map_err(|e| e.to_string())?;
@@ -803,9 +860,7 @@ impl C01 {
             if let Some((name, rest)) = line.split_once(' ') {
                 if name.starts_with('T') {
                     if let Some(Sexp::List(v)) = Sexp::parse(&format!("({rest})")) {
-                        let mut r = vec![atom("ok")];
-                        r.extend(v);
-                        out.insert(name.to_owned(), r);
+                        out.insert(name.to_owned(), pad_died(v, states.len()));
                     }
                 }
             }
@@ -815,6 +870,22 @@ impl C01 {
         }
         Ok(out)
     }
+}
+
+/// `(setup S) v… [(died)]` of one program → `ok (setup S) v1 … vN`: a program that died (its child process did not exit
+/// normally) has `(fail died)` for every state it did not reach (and `(setup died)` if it did not get that far)
+pub fn pad_died(v: Vec<Sexp>, nstates: usize) -> Vec<Sexp> {
+    let died = v.last().map(|x| x.render() == "(died)").unwrap_or(false);
+    let mut items: Vec<Sexp> = if died { v[..v.len() - 1].to_vec() } else { v };
+    if items.is_empty() {
+        items.push(node("setup", vec![atom("died")]));
+    }
+    while died && items.len() < nstates + 1 {
+        items.push(node("fail", vec![atom("died")]));
+    }
+    let mut r = vec![atom("ok")];
+    r.extend(items);
+    r
 }
 
 fn parse_progs(args: &[Sexp]) -> (Vec<Sexp>, Vec<(String, Program)>) {
@@ -847,12 +918,12 @@ impl Stream for C01 {
         for bk in 0..batches {
             let mut rng = Rng::fork(seed, "c01-batch", bk as u64);
             let states: Vec<Sexp> = (0..nstates).map(|_| gen_state(&mut rng)).collect();
-            let mut items = vec![enums_sexp(), node("states", states.clone())];
+            let mut items = vec![enums_sexp(), init_state(), node("states", states.clone())];
             let mut labels = vec![];
             let mut single = |label: &str, prop: &str, p: &Program| Case {
                 kind: "pred",
                 labels: vec![label.to_owned()],
-                request: node("spec-c01", vec![enums_sexp(), node("states", states.clone()), prog_sexp(prop, p)]),
+                request: node("spec-c01", vec![enums_sexp(), init_state(), node("states", states.clone()), prog_sexp(prop, p)]),
             };
             for k in 0..per_batch {
                 let (prop, p, label) = if k % 3 == 0 {
